@@ -5,14 +5,15 @@
    validators (`validate`), which are an oracle of the theorems.
 
    Concretely modelled: validateNonShorthand, findVar, expandFourSides,
-   the genericExpander decorator, _expandBorderSide, expandBorder, the
+   the genericExpander decorator, _expandBorderSide, expandBorder,
+   _expandColumns (with columnWidth / columnCount), outline / column-rule, the
    dispatch of PreprocessDeclarationsPrelude and the leaf validators the
    four-sides / border shorthands need (getLength, margin, padding, bleed,
    border-*-width, border-*-style, *-color through the ParseColor oracle,
    visibility).
 
    Model file: definitions only (proofs in Css/DeclProofs.v). *)
-From Coq Require Import List NArith ZArith QArith Bool String Ascii.
+From Coq Require Import List NArith ZArith QArith Qround Bool String Ascii.
 From Verif Require Export Css.DeclTok.
 Import ListNotations.
 
@@ -30,6 +31,7 @@ Inductive value : Type :=
 | VDim (v : Q) (u : N)               (* pr.DimOrS{Dimension{Value, Unit}}; u = pr.Unit code *)
 | VKw (k : str)                      (* pr.DimOrS{S: k} / pr.String(k) *)
 | VColor (c : color)                 (* pr.Color *)
+| VInt (n : Z)                       (* pr.IntString{Int: n} (the String member is a VKw) *)
 | VOther (repr : list N).            (* any other typed value, canonically printed (oracle validators) *)
 
 (* namedProperty, expanders.go:97-102; np_short = [] when the Go field is 0 *)
@@ -292,15 +294,97 @@ Section Pipeline.
   Definition expand_border (tokens : list tok) : option (list nprop) :=
     expand_border_loop border_sides tokens.
 
+  (* ---- columns, expanders.go:840-869 ---- *)
+
+  (* columnWidth, validation.go:1455-1469: <length> (not negative) | auto *)
+  Definition column_width (tokens : list tok) : option value :=
+    match tokens with
+    | [t] => match get_length t false false with
+             | Some (v, u) => Some (VDim v u)
+             | None => if str_eqb (get_keyword t) kw_auto then Some (VKw kw_auto) else None
+             end
+    | _ => None
+    end.
+
+  (* columnCount, validation.go:2441-2456: <integer> >= 1 | auto;
+     Number.Int() = int(ValueF), tokenizer.go:252 *)
+  Definition column_count (tokens : list tok) : option value :=
+    match tokens with
+    | [t] =>
+        match (match t with
+               | TNum v true => if Qle_bool 1 v then Some (VInt (Qfloor v)) else None
+               | _ => None
+               end) with
+        | Some x => Some x
+        | None => if str_eqb (get_keyword t) kw_auto then Some (VKw kw_auto) else None
+        end
+    | _ => None
+    end.
+
+  Definition is_some {A} (o : option A) : bool := match o with Some _ => true | None => false end.
+
+  Definition n_columns := Eval compute in s "columns".
+  Definition n_column_width := Eval compute in s "column-width".
+  Definition n_column_count := Eval compute in s "column-count".
+  Definition tok_auto : tok := TIdent kw_auto.      (* pa.NewIdent("auto", pos) *)
+
+  (* the loop at :846-856.  `name` is the longhand given to the previous token
+     ([] before the first one: the zero KnownProp is not column-width); returns
+     the (name, tokens) list and the last name *)
+  Fixpoint columns_loop (tokens : list tok) (name : str) : option (list (str * list tok) * str) :=
+    match tokens with
+    | [] => Some ([], name)
+    | t :: r =>
+        let name' :=
+          if (is_some (column_width [t]) && negb (str_eqb name n_column_width))%bool then Some n_column_width   (* :848 *)
+          else if is_some (column_count [t]) then Some n_column_count                                           (* :850 *)
+          else None in                                                                                          (* :853 *)
+        match name' with
+        | None => None
+        | Some nm => match columns_loop r nm with
+                     | None => None
+                     | Some (out, last) => Some ((nm, [t]) :: out, last)
+                     end
+        end
+    end.
+
+  (* _expandColumns, expanders.go:841-869 *)
+  Definition expand_columns (_ : str) (tokens : list tok) : option (list (str * list tok)) :=
+    let tokens :=
+      match tokens with
+      | [a; b] => if str_eqb (get_keyword a) kw_auto then [b; a] else tokens      (* :842-844 reverse *)
+      | _ => tokens
+      end in
+    match columns_loop tokens [] with
+    | None => None
+    | Some (out, name) =>
+        match tokens with
+        | [_] =>                                                                   (* :858-867 *)
+            let other := if str_eqb name n_column_width then n_column_count else n_column_width in
+            Some (out ++ [(other, [tok_auto])])
+        | _ => Some out
+        end
+    end.
+
+  Definition columns_names : list str := [n_column_width; n_column_count].       (* expanders.go:39 *)
+
+  Definition columns_expander (tokens : list tok) : option (list nprop) :=
+    generic_expander columns_names expand_columns n_columns tokens.
+
   (* ---- the expanders table, expanders.go:15-55 (modelled entries) ---- *)
 
   Definition four_sides_shorthands : list str := Eval compute in map s
     ["border-color"; "border-style"; "border-width"; "margin"; "padding"; "bleed"]%string.
 
+  (* expanders.go:37-38: column-rule and outline share _expandBorderSide *)
+  Definition side_like_shorthands : list str := Eval compute in map s ["column-rule"; "outline"]%string.
+
   Definition expander_of (name : str) : option (list tok -> option (list nprop)) :=
     if in_table four_sides_shorthands name then Some (expand_four_sides name)
     else if str_eqb name n_border then Some expand_border
     else if in_table border_sides name then Some (border_side_expander name)
+    else if in_table side_like_shorthands name then Some (border_side_expander name)
+    else if str_eqb name n_columns then Some columns_expander
     else other_expander name.
 
   (* ExpandValidatePending, expanders.go:66-77 *)
@@ -434,6 +518,29 @@ Section Leaves.
     let k := get_single_keyword tokens in
     if in_table visibility_kws k then Some (VKw k) else None.
 
+  (* outlineStyle, validation.go:1324-1333: the border styles without `hidden` *)
+  Definition outline_style_kws : list str := Eval compute in map s
+    ["none"; "dotted"; "dashed"; "double"; "inset"; "outset"; "groove"; "ridge"; "solid"]%string.
+  Definition outline_style (tokens : list tok) : option value :=
+    let k := get_single_keyword tokens in
+    if in_table outline_style_kws k then Some (VKw k) else None.
+
+  Definition kw_invert := Eval compute in s "invert".
+  (* outlineColor, validation.go:825-835 *)
+  Definition outline_color (tokens : list tok) : option value :=
+    match tokens with
+    | [t] => if str_eqb (get_keyword t) kw_invert then Some (VColor CCurrent)
+             else match parse_color t with CNone => None | c => Some (VColor c) end
+    | _ => None
+    end.
+
+  Definition n_outline_width := Eval compute in s "outline-width".
+  Definition n_outline_style := Eval compute in s "outline-style".
+  Definition n_outline_color := Eval compute in s "outline-color".
+  Definition n_column_rule_width := Eval compute in s "column-rule-width".
+  Definition n_column_rule_style := Eval compute in s "column-rule-style".
+  Definition n_column_rule_color := Eval compute in s "column-rule-color".
+
   Definition names_with (pre : string) (post : string) : list str :=
     map (fun sd => s pre ++ sd ++ s post) side_suffixes.
 
@@ -456,6 +563,13 @@ Section Leaves.
     else if in_table border_color_names name then Some other_colors
     else if str_eqb name n_color then Some color_prop
     else if str_eqb name n_visibility then Some visibility
+    else if (str_eqb name n_outline_width || str_eqb name n_column_rule_width)%bool then Some border_width
+    else if str_eqb name n_column_rule_style then Some border_style
+    else if str_eqb name n_column_rule_color then Some other_colors
+    else if str_eqb name n_outline_style then Some outline_style
+    else if str_eqb name n_outline_color then Some outline_color
+    else if str_eqb name n_column_width then Some column_width
+    else if str_eqb name n_column_count then Some column_count
     else None.
 
   Definition known_modelled (name : str) : bool :=
